@@ -973,7 +973,15 @@ type _structAssemblerRepr _structAssembler
 func (w *_structAssemblerRepr) AssembleKey() datamodel.NodeAssembler {
 	switch stg := reprStrategy(w.schemaType).(type) {
 	case schema.StructRepresentation_Map:
-		return (*_structAssembler)(w).AssembleKey()
+		(*_structAssembler)(w).AssembleKey()
+		// at representation level the key is the field's representation key, not its name
+		w.curKey.finish = func() error {
+			if name, ok := inboundMappedKey(w.schemaType, stg, w.curKey.val.String()); ok {
+				return (*_structAssembler)(w).checkRepeatedField(name)
+			}
+			return nil
+		}
+		return &w.curKey
 	case schema.StructRepresentation_Stringjoin,
 		schema.StructRepresentation_StringPairs:
 		// TODO: perhaps the ErrorWrongKind type should also be extended to explicitly describe whether the method was applied on bare DM, type-level, or repr-level.
@@ -1094,8 +1102,7 @@ func (w *_listStructAssemblerRepr) AssembleValue() datamodel.NodeAssembler {
 			}}
 		}
 		field := fields[w.nextIndex]
-		w.doneFields[w.nextIndex] = true
-		w.nextIndex++
+		w.nextIndex++ // (AssembleEntry below marks the field as done)
 
 		entryAsm, err := (*_structAssembler)(w).AssembleEntry(field.Name())
 		if err != nil {
